@@ -325,7 +325,10 @@ fn check_rename(mapfile: &str, nodes: &[Node], choices: &[u32]) -> Option<Failur
 // language, and then the opcodes read back by M2 are the ones its own language maps the spelling to.
 
 #[derive(Debug, Clone)]
-struct LangCase { game: &'static str, st: [u8; 2], tl_first: bool, sub_name: usize, tl_name: usize, reg_site: u8 /* 0 none, 1 sub, 2 timeline */ }
+struct LangCase { game: &'static str, st: [u8; 2], tl_first: bool, sub_name: usize, tl_name: usize, reg_site: u8 /* 0 none, 1 sub, 2 timeline */,
+    /// an item (a const, a nested function) in front of the use inside the sub / the timeline body: 0 none, 1 sub, 2 timeline, 3 both;
+    /// items have their own language context, which must not leak into the statements after them
+    nested_item: u8 }
 
 const LNAMES: [&str; 2] = ["nX", "nY"];
 const ECL_OPS: [u16; 2] = [910, 911];
@@ -342,7 +345,9 @@ fn lang_case_text(c: &LangCase) -> (String, String) {
     let map = if c.tl_first { format!("!eclmap\n{tl}{ecl}") } else { format!("!eclmap\n{ecl}{tl}") };
     let sub_arg = if c.reg_site == 1 { "rAlias" } else { "1" };
     let tl_arg = if c.reg_site == 2 { "rAlias" } else { "3" };
-    let src = format!("void sub0() {{ {}({sub_arg}, 2); ins_912(5, 6); }}\nscript timeline0 {{ {}({tl_arg}, 4); ins_915(7, 8); }}\n", LNAMES[c.sub_name], LNAMES[c.tl_name]);
+    let sub_item = if c.nested_item & 1 != 0 { "const int KA = 1; " } else { "" };
+    let tl_item = if c.nested_item & 2 != 0 { "const int KB = 2; " } else { "" };
+    let src = format!("void sub0() {{ {sub_item}{}({sub_arg}, 2); ins_912(5, 6); }}\nscript timeline0 {{ {tl_item}{}({tl_arg}, 4); ins_915(7, 8); }}\n", LNAMES[c.sub_name], LNAMES[c.tl_name]);
     (map, src)
 }
 
@@ -354,7 +359,7 @@ fn check_lang_case(c: &LangCase) -> (String, Option<Failure>) {
     let out = drive::compile(tool, src.as_bytes(), &CompileOpts { mapfiles: vec![&map], ..Default::default() });
     let expect_ok = c.st[c.sub_name] & 1 != 0 && c.st[c.tl_name] & 2 != 0 && c.reg_site != 2;
     let detail = |extra: serde_json::Value| json!({"family": "lang", "game": c.game, "mapfile": map, "source": src, "case": format!("{:?}", c), "expected_to_compile": expect_ok, "diag": out.diag, "info": extra});
-    let sig = |what: &str| format!("C10:lang:{what}:{}:st={}{}:{}:sub={}:tl={}:reg={}", c.game, c.st[0], c.st[1], if c.tl_first { "tl-first" } else { "ecl-first" }, LNAMES[c.sub_name], LNAMES[c.tl_name], c.reg_site);
+    let sig = |what: &str| format!("C10:lang:{what}:{}:st={}{}:{}:sub={}:tl={}:reg={}:items={}", c.game, c.st[0], c.st[1], if c.tl_first { "tl-first" } else { "ecl-first" }, LNAMES[c.sub_name], LNAMES[c.tl_name], c.reg_site, c.nested_item);
     if let Some(p) = &out.panic { return ("lang:panic".into(), Some(Failure { signature: sig(&p.signature()), detail: detail(json!({"panic": p.text})) })); }
     match (&out.bytes, expect_ok) {
         (None, false) => {
@@ -375,9 +380,9 @@ fn check_lang_case(c: &LangCase) -> (String, Option<Failure>) {
 
 fn lang_cases() -> Vec<LangCase> {
     let mut v = vec![];
-    for game in ["th06", "th07", "th08"] { for s0 in 0..4u8 { for s1 in 0..4u8 { for tl_first in [false, true] { for sub_name in 0..2 { for tl_name in 0..2 { for reg_site in 0..3u8 {
-        v.push(LangCase { game, st: [s0, s1], tl_first, sub_name, tl_name, reg_site });
-    }}}}}}}
+    for game in ["th06", "th07", "th08"] { for s0 in 0..4u8 { for s1 in 0..4u8 { for tl_first in [false, true] { for sub_name in 0..2 { for tl_name in 0..2 { for reg_site in 0..3u8 { for nested_item in 0..4u8 {
+        v.push(LangCase { game, st: [s0, s1], tl_first, sub_name, tl_name, reg_site, nested_item });
+    }}}}}}}}
     v
 }
 
